@@ -124,6 +124,13 @@ theorem distribution_eq_sum_of_votes_counterexample :
 
 example : gget (run s0 f9ops).dist.gauges 2 = 2 ∧ vsum (fun v => v.pow 2) (run s0 f9ops).votes = 3 := by decide
 
+/-- `Merge` filters non-positive powers only inside its loop: once a hook has lost a unit, pruning
+    the vote leaves a NEGATIVE power in the distribution (1 at 50 % → 0; +1 → hook adds 0, vote implies 1;
+    undelegate all → the vote's −1 is appended unfiltered) -/
+theorem distribution_negative_power_example :
+    (run s0 [stake 0 0 1, .vote 0 [(2, half)], stake 0 0 2, stake 0 0 0]).dist.gauges = [(2, -1)] ∧
+    (run s0 [stake 0 0 1, .vote 0 [(2, half)], stake 0 0 2, stake 0 0 0]).votes = [] := by decide
+
 /-! ## (2) recorded power = bonded delegations -/
 
 /- **power_tracks_staking** (full statement — FALSE on the current code):
